@@ -47,6 +47,7 @@ func checkC18(c *core.Ctx) error {
 	c18AccessorShapes(c)
 	c18SubDistributionCount(c)
 	c18RecursiveExport(c)
+	c18PresenceScans(c)
 	c18LikeNamed(c)
 	c18NamedKeys(c)
 	c18DecoderComplete(c)
